@@ -243,6 +243,11 @@ impl<SVC: Service> CloudServer<SVC> {
 
     /// Perform cleanup, deleting unnecessary data.
     async fn cleanup(&mut self) -> Result<()> {
+        // Read "latest" before listing anything. Other replicas may add versions while this
+        // cleanup is running, so everything listed below must be interpreted relative to a
+        // value of "latest" that is not newer than the listing.
+        let latest = self.get_latest().await?;
+
         // Construct a vector containing all (child, parent, creation) tuples
         let mut versions = {
             let mut versions = Vec::new();
@@ -272,7 +277,6 @@ impl<SVC: Service> CloudServer<SVC> {
         // at "latest".
         let mut rev_chain = HashMap::new();
         let mut iterations = versions.len() + 1; // For cycle detection.
-        let latest = self.get_latest().await?;
         if let Some(mut c) = latest {
             while let Some(p) = parent_of(c) {
                 rev_chain.insert(c, p);
@@ -309,12 +313,22 @@ impl<SVC: Service> CloudServer<SVC> {
             })
             .collect();
 
-        // Now, any pair not present in that chain can be deleted. However, another replica
-        // may be in the state where it has uploaded a version but not changed "latest" yet,
-        // so any pair with parent equal to latest is allowed to stay.
-        for (c, p, _) in versions {
-            if rev_chain.get(&c) != Some(&p) && Some(p) != latest {
+        // Now, pairs not present in that chain can be deleted if they can never become part of
+        // it: when their parent is in the chain before "latest" and so already has a child, or
+        // when they are attached to nothing and too old to be a recent addition. Another
+        // replica may be in the state where it has uploaded a version but not changed "latest"
+        // yet, so any pair with parent equal to latest is allowed to stay. And versions added
+        // since "latest" was read descend from it, possibly via versions that were not listed,
+        // so recent pairs with an unknown parent stay as well.
+        let in_chain: HashSet<Uuid> = rev_chain.iter().flat_map(|(c, p)| [*c, *p]).collect();
+        let mut deleted = HashSet::new();
+        for (c, p, creation) in versions {
+            if rev_chain.get(&c) == Some(&p) || Some(p) == latest {
+                continue;
+            }
+            if in_chain.contains(&p) || creation < age_threshold {
                 self.service.del(&Self::version_name(&p, &c)).await?;
+                deleted.insert(c);
             }
         }
 
@@ -352,13 +366,16 @@ impl<SVC: Service> CloudServer<SVC> {
             }
         }
 
-        // If there's a latest snapshot, delete all other snapshots.
+        // If there's a latest snapshot, delete the other snapshots, except those for versions
+        // not in the chain ending at "latest", which may have been added since it was read.
         let Some(latest_snapshot) = latest_snapshot else {
             // If there's no snapshot, no further cleanup is possible.
             return Ok(());
         };
         for version in snapshots {
-            if version != latest_snapshot {
+            if version != latest_snapshot
+                && (in_chain.contains(&version) || deleted.contains(&version))
+            {
                 self.service.del(&Self::snapshot_name(&version)).await?;
             }
         }
